@@ -6,6 +6,7 @@ import (
 	"go/ast"
 	"go/token"
 	"go/types"
+	"os"
 
 	"github.com/goplus/gogen"
 
@@ -178,6 +179,23 @@ func apiProgram() output {
 			panic("LookupParent lost sl")
 		}
 	})
+	step("closure-conversion", func() {
+		cb.VarRef(nil).Val(1)
+		if err := cb.ConvertToClosure(T[types.Int]); err != nil {
+			panic(err)
+		}
+		cb.Assign(1).EndStmt()
+	})
+	step("type-decl-life", func() {
+		d := pkg.NewType("Tmp")
+		verdicts = append(verdicts, fmt.Sprint(d.Inited(), d.State(), d.Type() != nil))
+		d.Delete()
+		pkg.ValidType(u.Ref("T").Type().(*types.Named))
+		verdicts = append(verdicts, u.Path())
+		u.EnsureImported()
+		u.MarkForceUsed(pkg)
+		pkg.SetRedeclarable(false)
+	})
 	step("instantiate", func() {
 		verdicts = append(verdicts, fmt.Sprint(pkg.Instantiate(T[types.Int], nil, gx.SrcNode("int[]")))) // reported error, not a crash
 	})
@@ -200,6 +218,20 @@ func apiProgram() output {
 			panic(err)
 		}
 		verdicts = append(verdicts, fmt.Sprint(buf.Len() > 0))
+	})
+	step("write-file", func() {
+		f, err := os.CreateTemp("", "c18-*.go")
+		if err != nil {
+			panic(err)
+		}
+		name := f.Name()
+		f.Close()
+		defer os.Remove(name)
+		if err := pkg.WriteFile(name); err != nil {
+			panic(err)
+		}
+		b, _ := os.ReadFile(name)
+		verdicts = append(verdicts, fmt.Sprint("written bytes > 0: ", len(b) > 0))
 	})
 	step("second-file", func() {
 		old, err := pkg.SetCurFile("other.go", true)
